@@ -24,7 +24,7 @@ def main():
                 res.append((m['id'], 'STALE (anchor not found)')); print(m['id'], 'STALE anchor'); continue
             i = s.find(m['old'], start)
             if i < 0:
-                res.append((m['id'], 'STALE (pattern not found)')); continue
+                res.append((m['id'], 'STALE (pattern not found)')); print(m['id'], 'STALE pattern'); continue
             s = s[:i] + m['new'] + s[i + len(m['old']):]
             open(p, 'w').write(s)
             env = dict(os.environ, VERIF_REPO=scratch)
